@@ -48,6 +48,9 @@ type ScramConfig struct {
 	ServerNonce string // suffix appended to the client nonce (printable, no comma)
 	CBType      string // "tls-unique" or "tls-exporter" (only for Plus)
 	CBData      []byte // the channel binding data the SERVER computed for this TLS connection (only for Plus)
+	// Ext: optional extensions of the server-first message (RFC 5802 section 7: nonce "," salt "," iteration-count
+	// ["," extensions]), without the leading comma, e.g. "t=ext1". A client has to ignore them; they are part of AuthMessage.
+	Ext string
 }
 
 // ScramExchange is the server side of one SCRAM exchange. Cfg may be changed
@@ -322,6 +325,9 @@ func (x *ScramExchange) ServerFirst() []byte {
 	x.ServerFirstMsg = "r=" + x.ClientNonce + x.Cfg.ServerNonce +
 		",s=" + base64.StdEncoding.EncodeToString(x.Cfg.Salt) +
 		",i=" + strconv.Itoa(x.Cfg.Iterations)
+	if x.Cfg.Ext != "" {
+		x.ServerFirstMsg += "," + x.Cfg.Ext
+	}
 	return []byte(x.ServerFirstMsg)
 }
 
